@@ -223,7 +223,9 @@ def gen_op(r, info, nslots, enabled=None):
         if what in ("broadcast_tooffsets64", "setitem_field"):
             op["other"] = r.randrange(nslots)
         if what == "setitem_field":
-            op["key"] = r.choice(list(keys) + ["n w", "x"])
+            # a name the record does not have yet (setitem_field appends; a record with the same key twice is not
+            # something the Python layer ever builds)
+            op["key"] = r.choice([k for k in ["n w", "new", "x", "y2"] if k not in keys])
         return op
     if k == "copy":
         return {"op": r.choice(["deep_copy", "shallow_copy", "getitem_nothing", "with_identities"]),
